@@ -6,6 +6,6 @@ LINE=$(sh $HERE/tools/seed_confirm.sh $WT $I | head -1)
 echo "$PROP-$SUF: $LINE"
 case "$LINE" in
   "clean_demo_exit=0 mutant_demo_exit=1 suite='1661 passed, 38 skipped"*)
-    python3 $HERE/tools/seed_store.py $PROP $I $WT "$LINE" $SUF "independent sub-agent (round 5: only the property text, a list of already used sites and a scratch worktree of /repo HEAD $(git -C /repo rev-parse --short HEAD))" ;;
+    python3 $HERE/tools/seed_store.py $PROP $I $WT "$LINE" $SUF "independent sub-agent (round 5-6: only the property text, a list of already used sites and a scratch worktree of /repo HEAD $(git -C /repo rev-parse --short HEAD))" ;;
   *) echo "  NOT confirmed - not stored" ;;
 esac
